@@ -469,7 +469,7 @@ def degree_prune_internal(indptr, data, max_degree=20):
     for i in numba.prange(indptr.shape[0] - 1):
         row_data = data[indptr[i] : indptr[i + 1]]
         if row_data.shape[0] > max_degree:
-            cut_value = np.sort(row_data)[max_degree]
+            cut_value = np.sort(row_data)[max_degree - 1]
             for j in range(indptr[i], indptr[i + 1]):
                 if data[j] > cut_value:
                     data[j] = 0.0
